@@ -7,66 +7,73 @@
 (* cleaner deletes a marked block once its mark is older than D.  A store  *)
 (* gateway periodically lists the bucket: it serves the blocks that have a *)
 (* meta.json, minus blocks whose deletion mark is older than I, minus      *)
-(* blocks whose sources are all contained in another such block.           *)
+(* blocks whose sources are all contained in another such block.  There    *)
+(* are NG store gateways; with NG = 2 they are sharded by a hashmod        *)
+(* relabel rule on __block_id (docs/sharding.md): every block id belongs   *)
+(* to exactly one of them and each gateway syncs on its own schedule.      *)
+(* What a listing yields is the composition of the gateway's metadata      *)
+(* filters in the ORDER of the chain in cmd/thanos/store.go (constant      *)
+(* Chain, read from the source tree by the harness).                       *)
 (*                                                                         *)
 (* Time is discrete.  All constants are in ticks and are generated from    *)
 (* the flag defaults of cmd/thanos/compact.go and cmd/thanos/store.go by   *)
 (* the Go harness (checks/c34), which also replays every edge of the state *)
 (* graph of this specification against the real code.                      *)
 (***************************************************************************)
-EXTENDS Integers, FiniteSets
+EXTENDS Integers, FiniteSets, Sequences
 
 CONSTANTS D,      \* compactor --delete-delay: a marked block is deleted when its mark age > D
           I,      \* store --ignore-deletion-marks-delay: a marked block is hidden when its mark age > I
-          L,      \* store --sync-block-duration: at most L ticks between the starts of two syncs
+          L,      \* store --sync-block-duration: at most L ticks between the starts of two syncs of a gateway
           S,      \* a sync (listing .. installing the new view) lasts at most S ticks
           NJobs,  \* 1: s1+s2 -> r          2: additionally r+s3 -> t
-          Replica \* FALSE: plain compaction, all blocks in one compaction group.
+          Replica,\* FALSE: plain compaction, all blocks in one compaction group.
                   \* TRUE: compaction with --deduplication.replica-label: the sources carry a replica label
                   \* (s1, s3: replica a; s2: replica b), the results do not, so for the store gateway (which
                   \* does not strip replica labels) sources and results are in different compaction groups
+          NG,     \* number of store gateways: 1, or 2 = a set sharded by hashmod(__block_id) % 2
+          Owner2, \* NG = 2: the blocks whose id hashes to the second gateway (all others: the first)
+          Chain   \* the gateway's metadata filter chain in the order written in cmd/thanos/store.go, as a
+                  \* sequence of "shard" (LabelShardedMetaFilter), "mark" (IgnoreDeletionMarkFilter), "dedup"
+                  \* (DeduplicateFilter) and names of filters that keep every block of the catalogue ("parquet",
+                  \* "time" with the default range, "consistency": results are compactor-made = exempt, the
+                  \* sources are older than the delay)
 
-ASSUME D \in Nat /\ I \in Nat /\ L \in Nat \ {0} /\ S \in Nat /\ NJobs \in {1, 2} /\ Replica \in BOOLEAN
+ASSUME D \in Nat /\ I \in Nat /\ L \in Nat \ {0} /\ S \in Nat /\ NJobs \in {1, 2} /\ Replica \in BOOLEAN /\ NG \in {1, 2}
 
 Sources == IF NJobs = 1 THEN {"s1", "s2"} ELSE {"s1", "s2", "s3"}
 Results == IF NJobs = 1 THEN {"r"} ELSE {"r", "t"}
 Blocks  == Sources \cup Results
+Gateways == 1 .. NG
 
-\* the level-1 blocks a block was built from (meta.json Compaction.Sources)
 Src(b)    == CASE b = "r" -> {"s1", "s2"} [] b = "t" -> {"s1", "s2", "s3"} [] OTHER -> {b}
 JobIn(j)  == IF j = 1 THEN {"s1", "s2"} ELSE {"r", "s3"}
 JobOut(j) == IF j = 1 THEN "r" ELSE "t"
-
-\* compaction group as the store gateway sees it (resolution + external labels of the block)
 Group(b) == IF Replica /\ b \in Sources THEN (IF b = "s2" THEN "replica-b" ELSE "replica-a") ELSE "no-replica-label"
-
-\* largest mark age that is told apart: one more than both delays
+Owner(b) == IF NG = 2 /\ b \in Owner2 THEN 2 ELSE 1
 Cap == (IF I > D THEN I ELSE D) + 1
 
-VARIABLES
-  files,       \* bucket content per block: "none", "data" (no meta.json yet), "complete", "nometa" (meta.json deleted, rest still there)
-  mark,        \* age of deletion-mark.json in ticks, -1 = not marked; ages above Cap are not distinguished
-  job, phase,  \* compactor program counter: phase \in {"data", "meta", "mark", "done"}
-  view,        \* blocks the gateway serves
-  pending,     \* result of the listing of a sync in progress
-  syncing,     \* a sync is in progress
-  sinceBegin,  \* ticks since the last sync started
-  syncTicks    \* ticks the sync in progress has taken so far
-
+VARIABLES files, mark, job, phase, view, pending, syncing, sinceBegin, syncTicks
 vars == <<files, mark, job, phase, view, pending, syncing, sinceBegin, syncTicks>>
 
-\* What a gateway listing yields now (fetcher + IgnoreDeletionMarkFilter + DeduplicateFilter).
-Visible ==
-  LET withMeta   == {b \in Blocks : files[b] = "complete"}
-      notExpired == {b \in withMeta : mark[b] <= I}
-  IN  {b \in notExpired : ~ \E c \in notExpired : c # b /\ Group(c) = Group(b) /\ Src(b) \subseteq Src(c)}
+\* One metadata filter of gateway g applied to the set X of blocks that are still in the listing.
+Apply(f, X, g) ==
+  CASE f = "shard" -> {b \in X : Owner(b) = g}
+    [] f = "mark"  -> {b \in X : mark[b] <= I}
+    [] f = "dedup" -> {b \in X : ~ \E c \in X : c # b /\ Group(c) = Group(b) /\ Src(b) \subseteq Src(c)}
+    [] OTHER -> X
+RECURSIVE Fold(_, _, _)
+Fold(i, X, g) == IF i > Len(Chain) THEN X ELSE Fold(i + 1, Apply(Chain[i], X, g), g)
+\* What a listing of gateway g yields now: the blocks with a meta.json, passed through the chain in order.
+Visible(g) == Fold(1, {b \in Blocks : files[b] = "complete"}, g)
 
 Init ==
   /\ files = [b \in Blocks |-> IF b \in Sources THEN "complete" ELSE "none"]
   /\ mark = [b \in Blocks |-> -1]
   /\ job = 1 /\ phase = "data"
-  /\ view = Sources /\ pending = {} /\ syncing = FALSE
-  /\ sinceBegin = 0 /\ syncTicks = 0
+  /\ view = [g \in Gateways |-> {b \in Sources : Owner(b) = g}]
+  /\ pending = [g \in Gateways |-> {}] /\ syncing = [g \in Gateways |-> FALSE]
+  /\ sinceBegin = [g \in Gateways |-> 0] /\ syncTicks = [g \in Gateways |-> 0]
 
 gw == <<view, pending, syncing, sinceBegin, syncTicks>>
 
@@ -93,10 +100,10 @@ MarkSource ==
             ELSE UNCHANGED <<job, phase>>
   /\ UNCHANGED files /\ UNCHANGED gw
 
-Eligible == {b \in Blocks : files[b] = "complete" /\ mark[b] > D}
-
 \* BlocksCleaner.DeleteMarkedBlocks: deletes every block whose mark is older than D - and nothing else; it
 \* may run at any time (with nothing to delete it leaves the state unchanged).
+Eligible == {b \in Blocks : files[b] = "complete" /\ mark[b] > D}
+
 Clean ==
   /\ files' = [b \in Blocks |-> IF b \in Eligible THEN "none" ELSE files[b]]
   /\ mark'  = [b \in Blocks |-> IF b \in Eligible THEN -1 ELSE mark[b]]
@@ -109,39 +116,39 @@ CleanCrash ==
   /\ UNCHANGED <<mark, job, phase>> /\ UNCHANGED gw
 
 SyncBegin ==
-  /\ ~ syncing
-  /\ pending' = Visible /\ syncing' = TRUE
-  /\ sinceBegin' = 0 /\ syncTicks' = 0
-  /\ UNCHANGED <<files, mark, job, phase, view>>
+  \E g \in Gateways :
+    /\ ~ syncing[g]
+    /\ pending' = [pending EXCEPT ![g] = Visible(g)] /\ syncing' = [syncing EXCEPT ![g] = TRUE]
+    /\ sinceBegin' = [sinceBegin EXCEPT ![g] = 0] /\ syncTicks' = [syncTicks EXCEPT ![g] = 0]
+    /\ UNCHANGED <<files, mark, job, phase, view>>
 
 SyncEnd ==
-  /\ syncing
-  /\ view' = pending /\ pending' = {} /\ syncing' = FALSE
-  /\ UNCHANGED <<files, mark, job, phase, sinceBegin, syncTicks>>
+  \E g \in Gateways :
+    /\ syncing[g]
+    /\ view' = [view EXCEPT ![g] = pending[g]] /\ pending' = [pending EXCEPT ![g] = {}]
+    /\ syncing' = [syncing EXCEPT ![g] = FALSE]
+    /\ UNCHANGED <<files, mark, job, phase, sinceBegin, syncTicks>>
 
 Tick ==
-  /\ sinceBegin < L
-  /\ syncing => syncTicks < S
+  /\ \A g \in Gateways : sinceBegin[g] < L /\ (syncing[g] => syncTicks[g] < S)
   /\ mark' = [b \in Blocks |-> IF mark[b] = -1 \/ mark[b] >= Cap THEN mark[b] ELSE mark[b] + 1]
-  /\ sinceBegin' = sinceBegin + 1
-  /\ syncTicks' = IF syncing THEN syncTicks + 1 ELSE 0
+  /\ sinceBegin' = [g \in Gateways |-> sinceBegin[g] + 1]
+  /\ syncTicks' = [g \in Gateways |-> IF syncing[g] THEN syncTicks[g] + 1 ELSE 0]
   /\ UNCHANGED <<files, job, phase, view, pending, syncing>>
 
 Next == UploadData \/ UploadMeta \/ MarkSource \/ Clean \/ CleanCrash \/ SyncBegin \/ SyncEnd \/ Tick
-
 Spec == Init /\ [][Next]_vars
 
 TypeOK ==
   /\ files \in [Blocks -> {"none", "data", "complete", "nometa"}]
   /\ mark \in [Blocks -> -1 .. Cap]
   /\ job \in 1 .. NJobs /\ phase \in {"data", "meta", "mark", "done"}
-  /\ view \subseteq Blocks /\ pending \subseteq Blocks /\ syncing \in BOOLEAN
-  /\ sinceBegin \in 0 .. L /\ syncTicks \in 0 .. S
+  /\ view \in [Gateways -> SUBSET Blocks] /\ pending \in [Gateways -> SUBSET Blocks] /\ syncing \in [Gateways -> BOOLEAN]
+  /\ sinceBegin \in [Gateways -> 0 .. L] /\ syncTicks \in [Gateways -> 0 .. S]
 
-\* Every source sample is served: some block the gateway serves was built from the source and is
-\* still completely in the bucket.
-Served == \A s \in Sources : \E b \in view : s \in Src(b) /\ files[b] = "complete"
-
-\* ... and no block the gateway serves from has been (partly) deleted: a query touching it would fail.
-NoDangling == \A b \in view : files[b] = "complete"
+\* Every source sample is served by some store gateway: some block that a gateway of the set serves was
+\* built from the source and is still completely in the bucket.
+Served == \A s \in Sources : \E g \in Gateways : \E b \in view[g] : s \in Src(b) /\ files[b] = "complete"
+\* ... and no block a gateway serves from has been (partly) deleted: a query touching it would fail.
+NoDangling == \A g \in Gateways : \A b \in view[g] : files[b] = "complete"
 =============================================================================
